@@ -73,6 +73,22 @@ def _pairs(ctx, rng, tier):
         if ok(a):
             pairs.append((o, int(a.split()[1], 16)))
             pairs.append((int(a.split()[1], 16), o))
+    # paths that cross a base-cell seam and end at the tip of the neighbouring base cell (all digits equal: the
+    # cell touches a third base cell, two steps away from the start's): samples next to the end can fall outside
+    # the range of the start's local coordinates
+    tips = []
+    for res in (3, 3, 4, 5) if tier == "quick" else (3, 3, 3, 4, 4, 5, 6):
+        for _ in range(10 if tier == "quick" else 40):
+            bc = rng.choice([b for b in range(122) if b not in gen.PENT_SET])
+            tips.append((gen.mkcell(res, bc, [rng.randrange(1, 7)] * res), rng.randrange(14, 26)))
+    for (e, k), a in zip(tips, ctx.c([f"disk {gen.hx(e)} {k}" for e, k in tips], tag="tips")):
+        if not ok(a):
+            continue
+        far_ = [c for c, d_ in parse_pairs(a) if c and d_ >= 14 and ((c >> 45) & 127) != ((e >> 45) & 127)]
+        rng.shuffle(far_)
+        for c in far_[: 20 if tier == "quick" else 40]:
+            pairs.append((c, e))
+            pairs.append((e, c))
     return pairs
 
 
@@ -136,7 +152,7 @@ def evaluate(ctx, rng, tier, focus, budget, broken):
                                   f"{asz} cells from a to b", ap[:200]))
                 continue
             step = max(1, len(cells) // 60)
-            for j in range(0, len(cells) - 1, step):
+            for j in sorted(set(range(0, len(cells) - 1, step)) | set(range(max(0, len(cells) - 5), len(cells) - 1))):
                 ops2.append(f"areneighbors {gen.hx(cells[j])} {gen.hx(cells[j + 1])}"); meta2.append(ops[3 * i])
         if len(viol_) >= 20:
             break
